@@ -181,6 +181,7 @@ func checkC01(w *World, r *Report) {
 	checkHeapTable(w, r, "C01.R8")
 	ruleFormatExchange(w, r, "C01")
 	ruleInitChannel(w, r, "C01")
+	ruleSyncAPI(w, r, "C01")
 	ruleDistributor(w, r, "C01")
 	ruleDecorExchange(w, r, "C01")
 	ruleDecorAlwaysCalled(w, r, "C01")
